@@ -18,7 +18,9 @@ exact hexadecimal float literals.  Inputs, all drawn from rep.rng:
   * random doubles with 53 significant bits over many binades
   * magnitudes up to 1e300 / 1.79e308 (products overflow to inf, inf - inf = NaN), around 1e154
     (products at the overflow edge), 1e-160 .. 5e-324 (products underflow, subnormals)
-  * +0.0 / -0.0, +inf, -inf, NaN in every argument position
+  * +0.0 / -0.0, +inf, -inf, NaN in every argument position; for point_intersects_polygon every
+    mixture of NaN / +inf / -inf in the two coordinates of the point (the kernel's guard for
+    points without any finite coordinate)
 
 Every difference is the violation  float-kernel-differs:<kernel>  with the inputs (as float.hex
 strings) as replay.
@@ -34,6 +36,7 @@ from . import common as C
 IMPORTS = 'Model.Num Model.FloatKernels'
 
 NAN, INF = float('nan'), float('inf')
+NONFINITE = [NAN, INF, -INF]
 
 KERNELS_OF = {'C01': ['orient', 'si1d', 'si'], 'C02': ['sip', 'pip']}
 SIG = {'orient': 'triangle_orientation', 'si1d': 'segments_intersect_1d', 'si': 'segments_intersect',
@@ -316,7 +319,8 @@ def gen_si(rng, n):
 def gen_polygon(rng):
     """(values, offsets, points): rings of one coordinate mode (closed or not), holes, an empty
     ring, a one-vertex ring, a non-zero first offset; points on vertices' coordinates, near
-    edges (interpolated, +-ulps), specials"""
+    edges (interpolated, +-ulps), specials, and points without any finite coordinate (each
+    mixture of NaN / +inf / -inf in x and y)"""
     mode = rng.choice(('int', 'half', 'dgrid', 'dec', 'rnd1', 'rnd', 'int', 'half', 'edge', 'huge', 'tiny',
                        'mixed', 'wide'))
 
@@ -360,6 +364,10 @@ def gen_polygon(rng):
                        else (pick(rng, 'special'), rng.choice(ys)))
         else:
             pts.append((coord(), coord()))
+    # points WITHOUT any finite coordinate (the kernel's first test): every mixture of NaN / +inf /
+    # -inf for one polygon in three, three of the nine mixtures otherwise
+    mixtures = [(a, b) for a in NONFINITE for b in NONFINITE]
+    pts += mixtures if rng.random() < 0.34 else rng.sample(mixtures, 3)
     return vals, offs, pts
 
 
@@ -506,6 +514,8 @@ def run_pip(rep, f, n):
         classify(rep, 'pip', vals)
         rep.count('float:pip:result=True', sum(got))
         rep.count('float:pip:result=False', len(got) - sum(got))
+        rep.count('float:pip:points-without-finite-coordinate',
+                  sum(1 for x, y in pts if not (math.isfinite(x) or math.isfinite(y))))
         if any(got) and not all(got):
             rep.count('float:pip:polygons-with-both-answers')
     rep.count('float:pip:inputs', sum(len(p[2]) for p in polys))
